@@ -1,7 +1,8 @@
 (* C10 carrier (1) - the process-wide random generator of src/Basic/Law.cpp (old style). NO proofs.
    Law.cpp:20-24  static int Random_factor = 105, Random_congruent = 20000159, Random_value = 43241421; bool Random_Old_Style
-   Law.cpp:63-71  law_set_random_seed(seed): if (seed > 0) Random_value = seed;   (a seed <= 0 is ignored)
-   Law.cpp:84-102 law_uniform: unsigned int p = Random_factor * Random_value; Random_value = p % Random_congruent; *)
+   Law.cpp:106-115 law_set_random_seed(seed): if (seed > 0) Random_value = seed;   (a seed <= 0 is ignored)
+   Law.cpp:127-150 law_uniform: unsigned int p = Random_factor * Random_value; Random_value = p % Random_congruent;
+                  if (Random_value == 0) Random_value = 1; *)
 From Coq Require Import List ZArith Bool.
 Import ListNotations.
 Local Open Scope Z_scope.
@@ -14,7 +15,9 @@ Inductive rop := RSeed (s : Z) | RDraw.
 
 Definition set_seed (s : Z) (rv : Z) : Z := if Z.ltb 0 s then s else rv.
 (* the 32-bit product: int * int evaluated modulo 2^32 and read as unsigned *)
-Definition draw (rv : Z) : Z := ((factor * rv) mod 2 ^ 32) mod congruent.
+(* Law.cpp:136-139: a state equal to 0 would freeze the generator; it is replaced by 1 *)
+Definition nz (r : Z) : Z := if Z.eqb r 0 then 1 else r.
+Definition draw (rv : Z) : Z := nz (((factor * rv) mod 2 ^ 32) mod congruent).
 
 Definition rstep (rv : Z) (o : rop) : Z := match o with RSeed s => set_seed s rv | RDraw => draw rv end.
 (* the values of Random_value after each operation (what law_get_random_seed() returns; law_uniform() = that / congruent) *)
